@@ -183,7 +183,9 @@ def run(tier):
         "sealed messages of every kernel-ladder class, tag sizes 12..16 and nonce sizes 1/12/16/129; for each: the "
         "authentic message, every tag bit, ciphertext bits (all for <= 48 bytes, chunk boundaries beyond), aad and "
         "nonce bits, aad lengthened/shortened, truncations by 1..tagSize+1, extensions, plus every length shorter than "
-        "the tag; TLC recomputes the expected tag from the logged inputs and requires (plaintext, nil error) or "
+        "the tag, tag differences that cancel under a wrong accumulation, refused messages opened into a destination WITH "
+        "room (spare capacity / in place: what is left there must not be the decryption of the body, GCM!Decrypted), mixed "
+        "sessions on one AEAD object incl. the tag of the previous message; TLC recomputes the expected tag from the logged inputs and requires (plaintext, nil error) or "
         "(nil, error) accordingly",
         ["TLC; GCM.tla / SM4.tla validated by published vectors on every run",
          "forgeries are structured single modifications, not all 2^n strings"])
